@@ -442,6 +442,7 @@ namespace vw
             g.mesh_extra = r.chance(0.25) ? static_cast<int>(r.range(1, 2)) : 0;
         }
         g.share_grid = r.chance(0.4) ? 1 : 0;
+        g.from_length = (m_kind != G_TRIMESH && r.chance(0.3)) ? 1 : 0;
         g.reuse_input = r.chance(0.5) ? 1 : 0;
         // status overrides
         if (r.chance(0.3))
@@ -1021,6 +1022,8 @@ namespace vw
                 if (p.graph)
                 {
                     auto& snap = main.graph->graph_snapshot(p.name);
+                    if (snap.size() != main.graph->size() || snap.grid_shape() != main.graph->grid_shape())
+                        out.violation("c16", "c16:graph:shape", "graph snapshot '" + p.name + "' reports another size / grid shape than the graph it belongs to");
                     Obs sobs = observe(snap, nullptr, true);
                     Obs pobs = observe(*p.world->graph, nullptr, true);
                     std::string d = compare_obs(sobs, pobs, CmpOpts());
